@@ -22,8 +22,11 @@ _glob_cache = {}
 
 
 def glob_regex(p: bytes):
-    """Declarative meaning of a pattern, rendered as a regular expression (independent of the
-    Lean definitions): `*` any run, `?` one byte, `\\x` the byte x, a final `\\` and anything else itself."""
+    """Declarative meaning of a pattern (Redis's glob, `stringmatchlen`), rendered as a regular expression
+    (independent of the Lean definitions): `*` any run, `?` one byte, `\\x` the byte x, `[...]` / `[^...]` one byte
+    that is / is not a member — `\\x` inside a class is the member x, `]` closes it, `a-b` is the range between the two
+    bytes in either order (also `a-]`), a class without `]` runs to the end of the pattern — a final `\\` and
+    anything else itself."""
     r = _glob_cache.get(p)
     if r is None:
         out, i = [], 0
@@ -33,6 +36,30 @@ def glob_regex(p: bytes):
                 out.append(b".*")
             elif c == b"?":
                 out.append(b".")
+            elif c == b"[":
+                i += 1
+                neg = i < len(p) and p[i] == 0x5E
+                if neg:
+                    i += 1
+                members = set()
+                while i < len(p):
+                    if p[i] == 0x5C and i + 1 < len(p):
+                        members.add(p[i + 1])
+                        i += 2
+                    elif p[i] == 0x5D:
+                        i += 1
+                        break
+                    elif i + 2 < len(p) and p[i + 1] == 0x2D:
+                        lo, hi = sorted((p[i], p[i + 2]))
+                        members.update(range(lo, hi + 1))
+                        i += 3
+                    else:
+                        members.add(p[i])
+                        i += 1
+                if neg:
+                    members = set(range(256)) - members
+                out.append(b"(?!)" if not members else b"[" + b"".join(b"\\x%02x" % m for m in sorted(members)) + b"]")
+                continue
             elif c == b"\\" and i + 1 < len(p):
                 out.append(re.escape(p[i + 1:i + 2]))
                 i += 1
@@ -145,8 +172,12 @@ def canon_all_acks(acks):
 # ------------------------------------------------------------------ generators
 CHANNELS = [b"news", b"nws", b"n", b"", b"ne*s", b"n?ws", b"news.sports", b"\x00\xff\r\n", b"*", b"nEws", b"n\\ws", b"s", b"ns", b"\\", b"n*"]
 PATTERNS = [b"news", b"n*", b"*", b"n?ws", b"ne\\*s", b"n*s", b"*s", b"\\n*", b"??*", b"n\\", b"", b"*\x00*", b"\\", b"n[e]ws", b"**",
-            b"*?", b"?", b"n\\?ws", b"\xff*", b"*.*", b"n*w*", b"*e*s", b"\\\\", b"n\\*", b"*\r\n", b"????"]
+            b"*?", b"?", b"n\\?ws", b"\xff*", b"*.*", b"n*w*", b"*e*s", b"\\\\", b"n\\*", b"*\r\n", b"????",
+            b"n[e]ws", b"n[ae]ws", b"[a-n]*", b"[^x]?ws", b"n[z-a]ws", b"n[\\]e]ws", b"n[e", b"[^", b"[", b"[]", b"n[^]ws", b"[a-]x]ews",
+            b"n[a\\-e]ws", b"*[sx]", b"n[e-e]w[^a-r]", b"[\x00-\xff]*", b"[^\x00-m]*"]
 UNIVERSES = [
+    ([b"news", b"naws", b"nxws"], [b"n[ae]ws", b"n[^x]ws", b"[a-n]*"]),
+    ([b"news", b"n]ws", b"n-ws"], [b"n[\\]e]ws", b"n[z-a]ws", b"n[e"]),
     ([b"news", b"nws", b"ne*s"], [b"n*", b"*", b"n?ws"]),
     ([b"news", b"n?ws", b"\x00\xff\r\n"], [b"ne\\*s", b"n?ws", b"*\x00*"]),
     ([b"news", b"ne*s", b""], [b"news", b"ne\\*s", b"*"]),
@@ -495,7 +526,8 @@ class C14:
                                                   "why": "pattern_matches panicked or died"}))
             return
         rx = glob_regex(p)
-        feats = ("*" if b"*" in p else "") + ("?" if b"?" in p else "") + ("\\" if b"\\" in p else "")
+        feats = ("*" if b"*" in p else "") + ("?" if b"?" in p else "") + ("\\" if b"\\" in p else "") + ("[" if b"[" in p else "") + \
+                ("^" if b"[^" in p else "") + ("-" if b"-" in p else "")
         for j, t in enumerate(texts):
             want = "1" if rx.fullmatch(t) is not None else "0"
             if a[j] != want:
@@ -521,8 +553,26 @@ class C14:
         self.rep.extra["exhaustive_small_scope"] = ("model validation (not the theorem): all %d (pattern, text) pairs with |pattern| <= %d, |text| <= %d over "
                                                      "the alphabet {a * ? \\}: pattern_matches vs Code.globBytes vs Spec.glob vs regex oracle" % (n, np, ns))
 
+    def glob_exhaustive_classes(self, np, ns):
+        """all (pattern, text) pairs, |pattern| <= np over {a c * ? \\ [ ] ^ -}, |text| <= ns over {a b c ] - ^}: model
+        validation of the class arm; NOT the theorem"""
+        palpha = [b"a", b"c", b"*", b"?", b"\\", b"[", b"]", b"^", b"-"]
+        talpha = [b"a", b"b", b"c", b"]", b"-", b"^"]
+        texts = [b"".join(t) for k in range(ns + 1) for t in itertools.product(talpha, repeat=k)]
+        n = 0
+        for k in range(np + 1):
+            for tup in itertools.product(palpha, repeat=k):
+                p = b"".join(tup)
+                if b"[" not in p:
+                    continue
+                self.glob_batch(p, texts, "exhaustive-classes")
+                n += len(texts)
+        self.rep.extra["exhaustive_small_scope_classes"] = ("model validation (not the theorem): all %d (pattern, text) pairs with a `[` in the pattern, |pattern| <= %d over "
+                                                             "{a c * ? \\ [ ] ^ -}, |text| <= %d over {a b c ] - ^}" % (n, np, ns))
+
     def glob_grammar(self, r, n):
-        toks = [b"*", b"*", b"?", b"\\*", b"\\?", b"\\\\", b"\\a", b"a", b"b", b"n", b"e", b"w", b"s", b".", b"\x00", b"\xff", b"\r\n", b"[", b"]", b"**", b"\\"]
+        toks = [b"*", b"*", b"?", b"\\*", b"\\?", b"\\\\", b"\\a", b"a", b"b", b"n", b"e", b"w", b"s", b".", b"\x00", b"\xff", b"\r\n", b"[", b"]", b"**", b"\\",
+                b"[ae]", b"[a-n]", b"[^a]", b"[^a-m]", b"[z-a]", b"[\\]]", b"[e", b"[^", b"[]", b"[^]", b"[a-]", b"-", b"^", b"[\\-]", b"[s-w\\*]"]
         for i in range(n):
             p = b"".join(r.choice(toks) for _ in range(r.range(0, 7)))
             texts = []
@@ -557,11 +607,24 @@ class C14:
     def corpus(self):
         self.history([("sub", 1, "c", [b"news"]), ("sub", 1, "p", [b"n*"]), ("pub", 2, b"news", b"x")], "corpus-dedup")
         self.history([("sub", 1, "p", [b"n*", b"*"]), ("pub", 2, b"news", b"\x00\r\n")], "corpus-dedup-2pat")
+        cls = [("sub", 1, "p", [b"h[ae]llo", b"[a-c]*"]), ("sub", 2, "p", [b"[^x]?", b"h[z-a]llo", b"h[\\]e]llo"]), ("sub", 3, "p", [b"h[ae", b"[^", b"["]),
+               ("sub", 3, "c", [b"h[ae]llo"]), ("pub", 4, b"hello", b"1"), ("pub", 4, b"hallo", b"2"), ("pub", 4, b"hillo", b"3"),
+               ("pub", 4, b"h[ae]llo", b"4"), ("pub", 4, b"h]llo", b"5"), ("pub", 4, b"ab", b"6"), ("pub", 4, b"xb", b"7"), ("pub", 4, b"ha", b"8"),
+               ("pub", 4, b"z", b"9"), ("pub", 4, b"cat", b"10"), ("unsub", 1, "p", [b"h[ae]llo"]), ("pub", 4, b"hello", b"11"), ("disc", 2), ("pub", 4, b"hello", b"12")]
+        self.history(cls, "corpus-classes")
+        self.class_history = cls
         self.history([("sub", 1, "c", [b"a", b"b", b"a"]), ("unsub", 1, "c", [b"a", b"zz"]), ("unsub", 1, "c", None), ("unsub", 1, "c", None),
                       ("unsub", 1, "c", [b"a"]), ("sub", 2, "p", [b"*"]), ("disc", 2), ("pub", 1, b"a", b"m"), ("unsub", 2, "p", None)], "corpus-acks")
         for p, ts in [(b"h*l?o", [b"hello", b"hllo"]), (b"news.*", [b"news", b"news.sports"]), (b"*", [b"", b"x"]), (b"", [b"", b"a"]),
                       (b"a*b*c", [b"axxbxbxc", b"abc", b"ab"]), (b"*a*a*a*a*a*b", [b"a" * 30, b"a" * 30 + b"b"]), (b"ne\\*s", [b"ne*s", b"news"]),
-                      (b"n\\", [b"n\\", b"n"]), (b"\\", [b"\\", b""]), (b"n[e]ws", [b"news", b"n[e]ws"]), (b"*?", [b"", b"a"]), (b"**a", [b"a", b"ba", b"ab"])]:
+                      (b"n\\", [b"n\\", b"n"]), (b"\\", [b"\\", b""]), (b"n[e]ws", [b"news", b"n[e]ws"]), (b"*?", [b"", b"a"]), (b"**a", [b"a", b"ba", b"ab"]),
+                      (b"h[ae]llo", [b"hello", b"hallo", b"hillo", b"h[ae]llo"]), (b"[a-c]*", [b"apple", b"cat", b"dog", b""]),
+                      (b"[^x]?", [b"ab", b"xb", b"a", b"abc"]), (b"[c-a]", [b"a", b"b", b"c", b"d"]), (b"[\\]]", [b"]", b"\\", b"a"]),
+                      (b"[ab", [b"a", b"b", b"[ab", b"ab"]), (b"[^", [b"", b"a", b"^", b"ab"]), (b"[", [b"[", b""]), (b"[]", [b"]", b"", b"[]"]),
+                      (b"[^]", [b"a", b"]", b""]), (b"[a-]x]", [b"a", b"]", b"^", b"x", b"-"]), (b"[a\\-c]", [b"a", b"-", b"b", b"c"]),
+                      (b"[a-", [b"a", b"-", b"b"]), (b"[\\", [b"\\", b"a"]), (b"*[ab]*[^ab]", [b"xaxx", b"ab", b"xxb", b"b-"]),
+                      (b"[*]", [b"*", b"a"]), (b"[?]x", [b"?x", b"ax"]), (b"\\[a]", [b"[a]", b"a"]), (b"[[]", [b"[", b"]"]), (b"[]a]", [b"a]", b"]", b"a"]),
+                      (b"[\x00-\xff]", [b"\x00", b"\xff", b"a", b""]), (b"[^\x00-\x7f]", [b"\x80", b"\x7f"])]:
             self.glob_batch(p, ts, "corpus")
 
     def run(self, seed, tier):
@@ -578,14 +641,17 @@ class C14:
         self.glob_grammar(r.fork("glob"), 1500 * scale)
         if tier == "thorough":
             self.glob_exhaustive(6, 5)
+            self.glob_exhaustive_classes(5, 3)
         else:
             self.glob_exhaustive(5, 4)
+            self.glob_exhaustive_classes(4, 2)
         # the real server, several client sockets
         self.tcp_run([("sub", 1, "c", [b"news"]), ("sub", 1, "p", [b"n*"]), ("sub", 2, "p", [b"n*", b"*"]), ("pub", 3, b"news", b"\x00\r\n"),
                       ("pub", 1, b"news", b"self")], "tcp-corpus-dedup")
         self.tcp_run([("sub", 1, "c", [b"news"]), ("sub", 2, "c", [b"news"]), ("disc", 1, "close"), ("pub", 3, b"news", b"m")], "tcp-corpus-dead-subscriber")
         self.tcp_run([("sub", 1, "c", [b"news"]), ("disc", 1, "quit"), ("pub", 3, b"news", b"m"), ("sub", 1, "c", [b"news"]), ("pub", 3, b"news", b"m2")],
                      "tcp-corpus-dead-subscriber-quit")
+        self.tcp_run([(o[0], o[1], "close") if o[0] == "disc" else o for o in self.class_history], "tcp-corpus-classes")
         for mode, held, ops in ending_matrix():
             self.tcp_run(ops, "tcp-ending-%s-%s" % (mode, held))
         for tag, ops in pipeline_corpus():
@@ -1723,7 +1789,8 @@ def main(tier, seed):
         "under de-duplication the pattern named in a pmessage is any matching pattern the connection holds",
         "bytes are modelled as Nat; the harness sends values < 256 only",
         "the mutexes of PubSubManager are not modelled: the server calls it from the single command thread only",
-        "[...] classes are not part of the grammar of pubsub.rs's matcher (documented as `*` and `?`); Spec.glob gives meaning to * ? \\x only",
+        "pub/sub uses the server's one glob matcher (storage::engine::pattern_matches, shared with KEYS / SCAN MATCH): Spec.glob is Redis's glob, "
+        "* ? [...] \\x with stringmatchlen's rules for classes",
         "in-process layer: PubSubManager::unsubscribe/punsubscribe return no result for a connection without an entry; the confirmations a client "
         "holding nothing is due are written by handle_unsubscribe/handle_punsubscribe and are judged on the TCP layer (model: Code.unsubEvents)",
         "TCP layer: one command at a time per connection (no pipelining); frames are attributed to operations by PING barriers; "
